@@ -86,6 +86,11 @@ theorem C04_text_of (print : Script → List Char) (parse : List Char → Option
   obtain ⟨ir, s, h1, h2, h3, _⟩ := C04_roundtrip_core p h hnd
   exact ⟨ir, s, h1, h2, by simp [h07 ir s h2, h3]⟩
 
+/-- The constants the model hard-wires (8 bits, `_%b`, `x%d`, `i%d`) are the ones in the Go source:
+    `AC.Gen.*` is regenerated from acc/pass/naming.go and acc/build.go on every check. -/
+theorem C04_naming_constants : AC.Gen.byteBits = 8 ∧ AC.Gen.byteFmt = "_%b" ∧ AC.Gen.xRunFmt = "x%d" ∧
+    AC.Gen.indexFmt = "i%d" := naming_constants
+
 /-- non-vacuity: the empty program (target 1) gives `return 1`; a program with a doubling run, a
     swapped addition and a re-used value -/
 example : buildX [] = .ok [⟨"", .operand 0⟩] ∧ dStmts [] [] [⟨"", .operand 0⟩] = some [] := ⟨rfl, rfl⟩
